@@ -104,13 +104,14 @@ class Ctx:
         print("[%s %6.1fs]" % (self.pid, time.time() - self.t0), *a, flush=True)
 
     def _load_known(self):
+        out = []
         p = os.path.join(ROOT, "known_findings.json")
-        if not os.path.exists(p):
-            return []
-        with open(p) as f:
-            data = json.load(f)
-        return [e for e in data.get("findings", [])
-                if e.get("property") == self.pid and e.get("status") == "open"]
+        if os.path.exists(p):
+            with open(p) as f:
+                data = json.load(f)
+            out += [e for e in data.get("findings", [])
+                    if e.get("property") == self.pid and e.get("status") == "open"]
+        return out
 
     def cleanup(self):
         shutil.rmtree(self.scratch, ignore_errors=True)
@@ -209,11 +210,12 @@ class Ctx:
         return r
 
     def tlc_trace(self, module, cfg, trace_path, timeout=600, env=None, dfs=False):
-        """Validate an NDJSON trace against spec/<module>.tla.  Returns (accepted, matched_prefix_len, stdout).
+        """Validate an NDJSON trace against spec/<module>.tla (the trace spec reads env TRACE_FILE).
 
-        The trace spec reads the file named by env TRACE_FILE and accepts through
-        POSTCONDITION TraceAccepted; on rejection it prints `TRACE_MATCHED <n>`.
-        """
+        Trace specs follow one convention: one step per logged line; a line the specification does not explain
+        is appended to the variable `bad` and printed at the end as "TRACE_REJECTED [line numbers]";
+        POSTCONDITION TraceAccepted checks that every line was consumed.
+        Returns (accepted, rejected_line_numbers (1-based), stdout)."""
         e = {"TRACE_FILE": trace_path}
         if env:
             e.update(env)
@@ -234,28 +236,42 @@ class Ctx:
         dist = int(m.group(2)) if m else 0
         self.states += dist
         self.transitions += gen
-        mm = None
-        for mm in re.finditer(r"TRACE_MATCHED (\d+)", out):
-            pass
-        matched = int(mm.group(1)) if mm else -1
-        completed = "Model checking completed" in out
-        bad_post = "Postcondition" in out and "violated" in out or "POSTCONDITION" in out and "violated" in out
-        accepted = completed and not bad_post and "Error:" not in out
-        if not accepted and not bad_post and matched < 0:
-            # evaluation error in the trace spec itself: find out whether it is a rejection
-            if re.search(r"(Invariant|Action property) (\S+) is violated", out):
-                pass
-            else:
-                raise MachineryError("TLC trace validation failed to run on %s:\n%s" % (module, "\n".join(out.splitlines()[-40:])))
+        rejected = []
+        mm = re.search(r'TRACE_REJECTED \[([0-9, ]*)\]', out)
+        if mm:
+            rejected = [int(x) for x in mm.group(1).replace(" ", "").split(",") if x]
+        elif "TRACE_REJECTED" in out:
+            raise MachineryError("cannot parse TRACE_REJECTED line of %s" % module)
+        completed = "Model checking completed" in out and "Error:" not in out
+        if not completed:
+            raise MachineryError("TLC trace validation failed to run on %s:\n%s" % (module, "\n".join(out.splitlines()[-40:])))
+        accepted = not rejected
         self.tlc_runs.append({"module": module, "cfg": cfg, "generated": gen, "distinct": dist,
-                              "wall_s": round(time.time() - t, 2), "mode": "trace", "accepted": accepted})
-        self.log("TLC trace %s: accepted=%s states=%d %.1fs" % (module, accepted, dist, time.time() - t))
-        return accepted, matched, out
+                              "wall_s": round(time.time() - t, 2), "mode": "trace", "accepted": accepted,
+                              "rejected_lines": len(rejected)})
+        self.log("TLC trace %s: lines=%d rejected=%d %.1fs" % (module, max(0, dist - 1), len(rejected), time.time() - t))
+        return accepted, rejected, out
+
+    def validate_trace(self, module, cfg, trace_path, on_reject, max_rejections=200, timeout=900, env=None):
+        """code -> spec: validate an NDJSON trace; every rejected line is handed to on_reject(record, lineno)
+        (which must call ctx.disagree or raise MachineryError).  Returns the number of accepted lines."""
+        with open(trace_path) as f:
+            lines = [x for x in f.read().splitlines() if x.strip()]
+        if not lines:
+            raise MachineryError("empty trace %s (dead recorder)" % trace_path)
+        ok, rejected, out = self.tlc_trace(module, cfg, trace_path, timeout=timeout, env=env)
+        for n in rejected[:max_rejections]:
+            on_reject(json.loads(lines[n - 1]), n)
+        self.traces_validated += len(lines) - len(rejected)
+        self.evaluations += len(lines)
+        if len(self.samples) < 8:
+            self.samples.append({"trace_line": json.loads(lines[0]), "module": module})
+        return len(lines) - len(rejected)
 
     # --------------------------------------------------------------- harness
-    def harness_build(self, race=False):
-        """Build the Go harness from /repo's current working tree (replace => /repo, -overlay in-package accessors)."""
-        key = "race" if race else "plain"
+    def harness_build(self, race=False, pkg="harness"):
+        """Build harness/cmd/<pkg> from /repo's current working tree (replace => /repo, -overlay in-package accessors)."""
+        key = pkg + ("_race" if race else "_plain")
         if self._harness_bin and key in self._harness_bin:
             return self._harness_bin[key]
         t = time.time()
@@ -271,12 +287,23 @@ class Ctx:
         ovp = os.path.join(self.scratch, "overlay.json")
         with open(ovp, "w") as f:
             json.dump({"Replace": ov}, f)
-        _merge_gosum(os.path.join(REPO, "go.sum"), os.path.join(HARNESS, "go.sum"))
-        out = os.path.join(self.scratch, "harness_%s" % key)
+        out = os.path.join(self.scratch, "%s_%s" % (pkg, "race" if race else "plain"))
         cmd = ["go", "build", "-tags", "verif", "-overlay", ovp, "-o", out]
+        if REPO == "/repo":
+            _merge_gosum(os.path.join(REPO, "go.sum"), os.path.join(HARNESS, "go.sum"))
+        else:
+            # build against another checkout (scratch worktree with a candidate change): private modfile
+            mf = os.path.join(self.scratch, "alt.mod")
+            with open(os.path.join(HARNESS, "go.mod")) as f:
+                txt = f.read().replace("=> /repo", "=> " + REPO)
+            with open(mf, "w") as f:
+                f.write(txt)
+            shutil.copy(os.path.join(HARNESS, "go.sum"), os.path.join(self.scratch, "alt.sum"))
+            _merge_gosum(os.path.join(REPO, "go.sum"), os.path.join(self.scratch, "alt.sum"))
+            cmd += ["-modfile", mf]
         if race:
             cmd.append("-race")
-        cmd.append("./cmd/harness")
+        cmd.append("./cmd/" + pkg)
         p = subprocess.run(cmd, cwd=HARNESS, stdout=subprocess.PIPE, stderr=subprocess.STDOUT, env=_env())
         if p.returncode != 0:
             raise MachineryError("harness build failed (is /repo compiling?):\n" + p.stdout.decode(errors="replace")[-4000:])
@@ -285,9 +312,9 @@ class Ctx:
         self.log("harness built (%s) in %.1fs" % (key, time.time() - t))
         return out
 
-    def harness(self, cmd, records=None, args=None, race=False, timeout=1800, env=None, raw=False):
-        """Run `harness <cmd> [args]` feeding `records` as NDJSON on a file; returns list of result dicts."""
-        b = self.harness_build(race=race)
+    def harness(self, cmd, records=None, args=None, race=False, timeout=1800, env=None, raw=False, pkg="harness"):
+        """Run `<pkg binary> <cmd> [args]` feeding `records` as NDJSON on a file; returns list of result dicts."""
+        b = self.harness_build(race=race, pkg=pkg)
         argv = [b, cmd]
         inpath = None
         if records is not None:
@@ -321,12 +348,12 @@ class Ctx:
         return res
 
     def replay_and_compare(self, cmd, records, args=None, race=False, key_of=None, what_of=None,
-                           nontrivial_of=None, timeout=1800, env=None, max_report=2000):
+                           nontrivial_of=None, timeout=1800, env=None, max_report=2000, pkg="harness"):
         """spec -> code: run records through harness `cmd`; every result with ok=false is re-executed
         alone in a fresh process and, if it reproduces, reported.  Returns list of result dicts."""
         if not records:
             raise MachineryError("no records to replay for %s (dead generator)" % cmd)
-        res = self.harness(cmd, records, args=args, race=race, timeout=timeout, env=env)
+        res = self.harness(cmd, records, args=args, race=race, timeout=timeout, env=env, pkg=pkg)
         body = [r for r in res if "i" in r]
         if len(body) != len(records):
             raise MachineryError("harness %s answered %d of %d records" % (cmd, len(body), len(records)))
@@ -348,13 +375,13 @@ class Ctx:
         for k, rs in sorted(groups.items()):
             first = rs[0]
             rec = records[first["i"]]
-            again = self.harness(cmd, [rec], args=args, race=race, timeout=timeout, env=env)
+            again = self.harness(cmd, [rec], args=args, race=race, timeout=timeout, env=env, pkg=pkg)
             again = [r for r in again if "i" in r]
             if not again or again[0].get("ok"):
                 raise MachineryError("disagreement %s did not reproduce in a fresh process: %s" % (k, json.dumps(first)[:500]))
             vers = sorted(set(str(records[r["i"]].get("ver")) for r in rs if isinstance(records[r["i"]], dict) and "ver" in records[r["i"]]))
             what = first.get("what") or (what_of(rec, first) if what_of else json.dumps({x: first[x] for x in first if x not in ("i", "ok")})[:300])
-            self.disagree(k, what, {"harness": cmd, "args": args or [], "record": rec, "result": first, "count": len(rs), "versions": vers})
+            self.disagree(k, what, {"harness": cmd, "pkg": pkg, "args": args or [], "record": rec, "result": first, "count": len(rs), "versions": vers})
         return body
 
     # -------------------------------------------------------------- verdicts
